@@ -15,6 +15,7 @@ def b01 (b : Bool) : String := if b then "1" else "0"
 
 def evStr : Ev → String
   | Ev.unlock t => s!"s {t} unlock mx"
+  | Ev.cvEnter t => s!"s {t} cv-enter cv"
   | Ev.cvBlock t => s!"s {t} cv-block cv"
   | Ev.joinBlock t u => s!"s {t} join-block t{u}"
   | Ev.join t u => s!"s {t} join t{u}"
@@ -87,7 +88,8 @@ def runCase (hdr : List String) (body : List (List String)) : List String := Id.
   let scripts := (cls.map (fun w => (w.drop 1).filterMap parseOp)).toArray
   let nt := nw + cls.length
   let cfg : Cfg := { nw := nw, nt := nt, script := fun t => scripts[t - nw]?.getD [],
-                     raOwns := !hdr.contains "asis-ra", dtorOutside := !hdr.contains "asis-dtor" }
+                     raOwns := !hdr.contains "asis-ra", dtorOutside := !hdr.contains "asis-dtor",
+                     cvYield := hdr.contains "cvy" }
   let (s, out, stuck) := runSched cfg (init cfg) sched #[] 100000
   let mut lines := out
   if stuck then
